@@ -1400,6 +1400,8 @@ func Run(c *verdict.Ctx) int {
 		st := stats{}
 		if w.Stream == relabelStream {
 			g.runRelabel(w.Case, st)
+		} else if w.Stream == aliasStream {
+			g.runAlias(w.Case, st)
 		} else {
 			g.runBase(w.Case, st)
 		}
@@ -1447,6 +1449,9 @@ func Run(c *verdict.Ctx) int {
 	}
 	parallel(stream, nBases, g.runBase)
 	parallel(relabelStream, nRelabel, g.runRelabel)
+	nAlias := c.N(1200, 60000)
+	parallel(aliasStream, nAlias, g.runAlias)
+	c.Set("alias_cases", nAlias)
 	merged := stats{}
 	for _, st := range all {
 		for k, v := range st {
@@ -1472,7 +1477,8 @@ func Run(c *verdict.Ctx) int {
 		"relabel/other-message-power.>2/3", "relabel/other-message-power.(1/3,2/3]", "relabel/light.VerifyAdjacent.accept=true", "relabel/light.VerifyAdjacent.accept=false",
 		"relabel/light.VerifyNonAdjacent.accept=true", "relabel/light.VerifyNonAdjacent.accept=false", "relabel/signbytes.by-hand==marshaller",
 		"wire.ValidatorSetFromProto.accepted", "wire.ValidatorSetFromProto.rejected", "wire.total-checked", "variants.vals-decoded-from-forged-wire-message",
-		"variants.tvals-decoded-from-forged-wire-message", "relabel/wire.LightBlockFromProto.accepted"} {
+		"variants.tvals-decoded-from-forged-wire-message", "relabel/wire.LightBlockFromProto.accepted",
+		"alias/VerifyCommit.accept=true", "alias/VerifyCommit.accept=false", "alias/Equals.checked.reference=true", "alias/Equals.checked.reference=false"} {
 		if merged[k] == 0 {
 			c.HarnessError("nothing observed for %q", k)
 		}
